@@ -183,6 +183,16 @@ func (i *IRCServer) Unmarshal(data []byte) (uint64, error) {
 		return 0, err
 	}
 
+	// The server may already be visible to API requests when a snapshot is
+	// loaded into it (Restore replaces the state before decoding it), so all
+	// of the following modifications need to happen with the locks held.
+	i.sessionsMu.Lock()
+	defer i.sessionsMu.Unlock()
+	i.ConfigMu.Lock()
+	defer i.ConfigMu.Unlock()
+	i.lastProcessedMu.Lock()
+	defer i.lastProcessedMu.Unlock()
+
 	for _, s := range snapshot.Sessions {
 		channels := make(map[lcChan]bool, len(s.Channels))
 		for _, channel := range s.Channels {
